@@ -57,7 +57,17 @@ pub struct BlockRec {
   pub txnums: Vec<usize>,
 }
 
+#[derive(Clone, Copy, Default)]
+pub struct ChainOpts {
+  /// index inscriptions too and attach an event receiver (C37)
+  pub events: bool,
+}
+
 pub struct Chain {
+  pub opts: ChainOpts,
+  /// events drained after every `update()`, one list per block (only with `opts.events`)
+  pub block_events: Vec<Vec<ord::index::event::Event>>,
+  receiver: Option<tokio::sync::mpsc::Receiver<ord::index::event::Event>>,
   pub core: mockcore::Handle,
   pub index: ord::Index,
   _dir: tempfile::TempDir,
@@ -93,6 +103,10 @@ impl OutSpec {
 impl Chain {
   /// a fresh regtest node with the genesis block indexed
   pub fn new() -> Chain {
+    Chain::with(ChainOpts::default())
+  }
+
+  pub fn with(opts: ChainOpts) -> Chain {
     let core = ordkit::regtest_core();
     // the index database is transient: keep it on tmpfs when there is one (redb commits with
     // Durability::Immediate, i.e. one fsync per block)
@@ -101,8 +115,17 @@ impl Chain {
     } else {
       tempfile::TempDir::new().unwrap()
     };
-    let index = ordkit::open_index(&core, dir.path(), &["--index-runes", "--no-index-inscriptions"]);
+    let (index, receiver) = if opts.events {
+      let settings = ordkit::settings(&core, dir.path(), &["--index-runes"]);
+      let (sender, receiver) = tokio::sync::mpsc::channel(1 << 20);
+      (ord::Index::open_with_event_sender(&settings, Some(sender)).expect("open index"), Some(receiver))
+    } else {
+      (ordkit::open_index(&core, dir.path(), &["--index-runes", "--no-index-inscriptions"]), None)
+    };
     let mut c = Chain {
+      opts,
+      block_events: Vec::new(),
+      receiver,
       core,
       index,
       _dir: dir,
@@ -121,8 +144,19 @@ impl Chain {
     // the genesis coinbase output is not spendable in mockcore (not in utxos)
     c.live.clear();
     c.index.update().unwrap();
+    c.drain_events();
     c.dumps.push(c.index.verif_dump().unwrap());
     c
+  }
+
+  fn drain_events(&mut self) {
+    let mut v = Vec::new();
+    if let Some(r) = self.receiver.as_mut() {
+      while let Ok(e) = r.try_recv() {
+        v.push(e);
+      }
+    }
+    self.block_events.push(v);
   }
 
   pub fn height(&self) -> u32 {
@@ -246,6 +280,7 @@ impl Chain {
     }
     self.record_block(height, block.header.time, all);
     self.index.update().unwrap();
+    self.drain_events();
     self.dumps.push(self.index.verif_dump().unwrap());
   }
 
@@ -275,7 +310,7 @@ impl Chain {
 
   /// the whole chain as a case line
   pub fn line(&self) -> Line {
-    let mut l = L::new().p(1u8).p(Rune::first_rune_height(bitcoin::Network::Regtest)).p(0u8).p(self.blocks.len());
+    let mut l = L::new().p(if self.opts.events { 2u8 } else { 1u8 }).p(Rune::first_rune_height(bitcoin::Network::Regtest)).p(0u8).p(self.blocks.len());
     for b in &self.blocks {
       l.push(b.time);
       l.push(b.txnums.len());
@@ -519,9 +554,9 @@ pub fn parse_specs(c: &mut Cur) -> Vec<Vec<TxSpec>> {
 /// agrees with what the rebuilt chain says
 pub fn rebuild(case: &Line) -> (Chain, bool) {
   let mut c = Cur::new(case);
-  let _op = c.u8();
+  let op = c.u8();
   let blocks = parse_specs(&mut c);
-  let mut chain = Chain::new();
+  let mut chain = Chain::with(ChainOpts { events: op == 2 });
   for b in blocks.iter().skip(1) {
     chain.add_block(b);
   }
